@@ -11,7 +11,7 @@ def run(idx, rep, tier):
         "the i0/i1 wrap-around, 2x2 rectangle edges, 2x3 box faces, every rectangle vertex) and candidate loops are cut short "
         "only under `dist <= epsilon`. R-CLAMPCONVEX: 'solve the infinite line, clamp the parameter, re-query the end point' "
         "is used only against convex primitives (table from the shapes' definitions; a circle is not convex: known finding). "
-        "R-MIRROR: the line-to-box case tree is symmetric under the axis swap. R-TRIPLE: best-of blocks adopt distance and points together. R-DEGREE (engine E3): closed forms are dimensionally "
+        "R-MIRROR / R-CASEDISPATCH / R-TOURNAMENT / R-BOXFACE: the line-to-box case analysis is symmetric under the axis swap, dispatches every sign pattern of the direction to the case that moves along exactly the positive axes, and picks the exit face by a consistent tournament. R-TRIPLE: best-of blocks adopt distance and points together. R-DEGREE (engine E3): closed forms are dimensionally "
         "homogeneous (this is what exposed the line_to_circle transcription error). Optimality itself and the 20-round "
         "alternating projection of disk_to_disk are NOT decided.")
     rep.assumptions = DOMAIN_D + ["primitive domain P"]
@@ -19,5 +19,8 @@ def run(idx, rep, tier):
     features.r_clampconvex(idx, rep)
     roles.r_triple(idx, rep)
     mirror.r_mirror(idx, rep)
+    mirror.r_casedispatch(idx, rep)
+    mirror.r_tournament(idx, rep)
+    mirror.r_boxface(idx, rep)
     mods = [x.name for x in idx.lib_modules() if x.name.startswith("distance3d.distance")]
     degree.r_degree(idx, rep, modules=mods, floor=30)
